@@ -970,6 +970,70 @@ def _readback11(R, c, cls, repo):
     return None
 
 
+def install_args(c, rel):
+    """positional arguments of the installer of case c for the file `rel`"""
+    from cherab.core.atomic import hydrogen
+    if c['fmt'] == '11':
+        return (hydrogen, 0, c['element'], rel) if c['cls'] == 'ccd' else (c['element'], rel)
+    if c['fmt'] == '12':
+        return (c['donor'], c['meta'], c['receiver'], c['charge'], rel)
+    if c['fmt'] == '15':
+        return (c['element'], c['charge'], rel)
+    if c['kind'] == 'adf21':
+        return (c['beam'], c['target'], c['zt'], rel)
+    if c['kind'] == 'bmp':
+        return (c['beam'], c['meta'], c['target'], c['zt'], rel)
+    return (c['beam'], c['target'], c['zt'], c['transition'], rel)
+
+
+def config_key(c):
+    if c['fmt'] == '11':
+        return 'adf11' + c['cls']
+    if c['fmt'] == '2x':
+        return {'adf21': 'adf21', 'bmp': 'adf22bmp', 'bme': 'adf22bme'}[c['kind']]
+    return 'adf' + c['fmt']
+
+
+def readback(R, c, repo):
+    """every table of case c through the get_* of its own repository family; first difference or None"""
+    from cherab.core.atomic import hydrogen
+    d = None
+    if c['fmt'] == '11':
+        return _readback11(R, c, c['cls'], repo)
+    if c['fmt'] == '12':
+        for tr, stc, _ in c['blocks']:
+            st3, back = call(R.get_beam_cx_rates, c['donor'], c['receiver'], c['charge'], tr, repo)
+            back = dict(back) if st3 == 'ok' else {}
+            d = d or ('get raised %s' % st3 if st3 != 'ok' else ('metastable missing' if c['meta'] not in back else
+                      cmp_struct(back[c['meta']], stc, fields=STORED12)))
+        return d
+    if c['fmt'] == '15':
+        el, ch, want = c['element'], c['charge'], c['want']
+        for cls, getter in (('excitation', R.get_pec_excitation_rate), ('recombination', R.get_pec_recombination_rate)):
+            for tr, stc in want[cls].items():
+                st3, back = call(getter, el, ch, tr, repo)
+                d = d or ('%s get raised %s' % (cls, st3) if st3 != 'ok' else cmp_struct(back, stc))
+        for tr, stc in want['thermalcx'].items():
+            st3, back = call(R.get_pec_thermal_cx_rate, hydrogen, 0, el, ch + 1, tr, repo)
+            if st3 != 'ok':
+                d = d or 'thermalcx get raised %s' % st3
+            else:
+                r3 = np.asarray(back['rate'], dtype=float)
+                d = d or (cmp_struct({'ne': back['ne'], 'te': back['te'], 'rate': r3[:, :, 0]}, stc) if r3.ndim == 3 else 'thermalcx shape')
+        for tr, stc in want['wavelength'].items():
+            st3, back = call(R.get_wavelength, el, ch, tr, repo)
+            d = d or ('wavelength get raised %s' % st3 if st3 != 'ok' else cmp_struct({'wl': back}, stc))
+        return d
+    kind = c['kind']
+    if kind == 'adf21':
+        st3, back = call(R.get_beam_stopping_rate, c['beam'], c['target'], c['zt'], repo)
+    elif kind == 'bmp':
+        st3, back = call(R.get_beam_population_rate, c['beam'], c['meta'], c['target'], c['zt'], repo)
+    else:
+        st3, back = call(R.get_beam_emission_rate, c['beam'], c['target'], c['zt'], c['transition'], repo)
+    return 'get raised %s' % st3 if st3 != 'ok' else cmp_struct(back, c['struct'])
+
+
 def run_bundle(ctx, w, b, texts, model_dispatch):
     """install_files(configuration) with all keys at once, then every family is read back through its own get_* and the
     families that received nothing must be empty.  Returns (oracle failures, model disagreements)."""
@@ -982,18 +1046,7 @@ def run_bundle(ctx, w, b, texts, model_dispatch):
     for (key, c), text in zip(b['cases'], texts):
         rel, _ = w.write(text, c.get('fname'))
         c['rel'] = rel
-        if c['fmt'] == '11':
-            args = (hydrogen, 0, c['element'], rel) if c['cls'] == 'ccd' else (c['element'], rel)
-        elif c['fmt'] == '12':
-            args = (c['donor'], c['meta'], c['receiver'], c['charge'], rel)
-        elif c['fmt'] == '15':
-            args = (c['element'], c['charge'], rel)
-        elif c['kind'] == 'adf21':
-            args = (c['beam'], c['target'], c['zt'], rel)
-        elif c['kind'] == 'bmp':
-            args = (c['beam'], c['meta'], c['target'], c['zt'], rel)
-        else:
-            args = (c['beam'], c['target'], c['zt'], c['transition'], rel)
+        args = install_args(c, rel)
         config.setdefault(b['spell'](key), []).append(args)
     fails, disagree = [], []
     st, e = quiet(I.install_files, config, download=False, repository_path=w.repo, adas_path=w.adas)
@@ -1015,37 +1068,8 @@ def run_bundle(ctx, w, b, texts, model_dispatch):
                 dm = _readback11(R, c, INSTALLER_FAMILY[targets[0]], w.repo)
                 if dm:
                     disagree.append('model: key %s runs %s, but that family does not hold the file: %s' % (key, targets[0], dm))
-        elif c['fmt'] == '12':
-            for tr, stc, _ in c['blocks']:
-                st3, back = call(R.get_beam_cx_rates, c['donor'], c['receiver'], c['charge'], tr, w.repo)
-                back = dict(back) if st3 == 'ok' else {}
-                d = d or ('get raised %s' % st3 if st3 != 'ok' else ('metastable missing' if c['meta'] not in back else
-                          cmp_struct(back[c['meta']], stc, fields=STORED12)))
-        elif c['fmt'] == '15':
-            el, ch, want = c['element'], c['charge'], c['want']
-            for cls, getter in (('excitation', R.get_pec_excitation_rate), ('recombination', R.get_pec_recombination_rate)):
-                for tr, stc in want[cls].items():
-                    st3, back = call(getter, el, ch, tr, w.repo)
-                    d = d or ('%s get raised %s' % (cls, st3) if st3 != 'ok' else cmp_struct(back, stc))
-            for tr, stc in want['thermalcx'].items():
-                st3, back = call(R.get_pec_thermal_cx_rate, hydrogen, 0, el, ch + 1, tr, w.repo)
-                if st3 != 'ok':
-                    d = d or 'thermalcx get raised %s' % st3
-                else:
-                    r3 = np.asarray(back['rate'], dtype=float)
-                    d = d or (cmp_struct({'ne': back['ne'], 'te': back['te'], 'rate': r3[:, :, 0]}, stc) if r3.ndim == 3 else 'thermalcx shape')
-            for tr, stc in want['wavelength'].items():
-                st3, back = call(R.get_wavelength, el, ch, tr, w.repo)
-                d = d or ('wavelength get raised %s' % st3 if st3 != 'ok' else cmp_struct({'wl': back}, stc))
         else:
-            kind = c['kind']
-            if kind == 'adf21':
-                st3, back = call(R.get_beam_stopping_rate, c['beam'], c['target'], c['zt'], w.repo)
-            elif kind == 'bmp':
-                st3, back = call(R.get_beam_population_rate, c['beam'], c['meta'], c['target'], c['zt'], w.repo)
-            else:
-                st3, back = call(R.get_beam_emission_rate, c['beam'], c['target'], c['zt'], c['transition'], w.repo)
-            d = 'get raised %s' % st3 if st3 != 'ok' else cmp_struct(back, c['struct'])
+            d = readback(R, c, w.repo)
         if d:
             fails.append(('C08:install_files:%s:%s' % (key, sigcat(d)), 'install_files: key %s, file %s: %s' % (key, c['rel'], d)))
     # families that received nothing: element B has exactly one ADF11 class; every charge of the other five must be absent
